@@ -316,6 +316,17 @@ def _make_reduction_lambda(
         raise NotImplementedError("reduction with 'initial' not equal to the "
                 "neutral element")
 
+    if not reduction_axes:
+        # Nothing to reduce over (as for numpy: 'axis=()' or a 0-d array): the
+        # result is the array itself, or its truth value for all/any.
+        if (isinstance(op, AllReductionOperation | AnyReductionOperation)
+                and a.dtype != np.bool_):
+            from pytato.array import not_equal
+            truth = not_equal(a, 0)
+            assert isinstance(truth, Array)
+            return truth.astype(a.dtype)
+        return a
+
     return make_index_lambda(
             Reduce(
                 prim.Subscript(prim.Variable("in"), tuple(indices)),
